@@ -399,6 +399,11 @@ def run(ctx, replay=None):
                     cfgsets.insert(0, j['configs'])
     else:
         progs = [conflicting_program(r) for _ in range(n * 3 // 4)] + [engine_solver.small_program(r) for _ in range(n - n * 3 // 4)]
+        cdir = os.path.join(common.VERIF, 'corpus', ctx.prop)
+        if os.path.isdir(cdir):
+            for fn in sorted(os.listdir(cdir), reverse=True):
+                if fn.endswith('.json'):
+                    progs.insert(0, terms.from_jsonable(json.load(open(os.path.join(cdir, fn)))['program']))
         cfgsets = [[dict(debug=True), dict()] for _ in progs]
     small = [i < (n * 2 // 3) or cfg['mode'] == 'debug' or replay is not None for i in range(len(progs))]
     t1 = time.time()
@@ -715,8 +720,17 @@ def observe_debug(args):
     out = {'idx': idx, 'error': None, 'per_cfg': [], 'status': None}
     try:
         verdicts = {}
+        # every third case: the first constraint carries the name of an optional task's scheduled flag (a legitimate name;
+        # the tracking of debug mode must not make it meet the z3 constant of that name)
+        naming = impl.default_naming
+        opt_ids = [o[1][1] for o in prog if o[0] == 'ONewTask' and o[3] is True]
+        con_ids = [o[1][1] for o in prog if o[0] == 'ONewConstraint']
+        if idx % 3 == 0 and opt_ids and con_ids:
+            tgt = 'T%d_scheduled' % opt_ids[0]
+            naming = (lambda k, i, _c=con_ids[0], _t=tgt: _t if (k == 'K' and i == _c) else impl.default_naming(k, i))
+        out['naming'] = 'flag-named constraint' if naming is not impl.default_naming else 'default'
         for c in cfgs:
-            im = impl.Impl()
+            im = impl.Impl(naming=naming)
             res = im.run(prog)
             if res[0] != 'ok' or im.pb is None:
                 out['status'] = 'rejected'
@@ -742,7 +756,8 @@ def observe_debug(args):
                 rec['dirs'] = []
                 rec['obj'] = 'none'
                 if tracked:
-                    rec['map'] = [solver._map_boolrefs_to_constraints.get(ev[2]) for ev in tracked]
+                    back_names = {naming('K', ci): 'K%d' % ci for ci in im.cons}
+                    rec['map'] = [back_names.get(nm0, nm0) for nm0 in (solver._map_boolrefs_to_constraints.get(ev[2]) for ev in tracked)]
                 sol = solver.solve()
             text = buf.getvalue()
             checks = [ev for ev in sp.LOG if ev[0] == 'check']
